@@ -364,3 +364,239 @@ RECIPES += [
     ("C20", "break", ["C20-R4", "C20-R5"], S, _N_ARM, _N_ARM_SPLIT.replace("return r if _func(r, *args) >= 0 else", "return r if _func(r, *args) <= 0 else"), "split form with the early exit on the wrong sign"),
     ("C20", "break", ["C20-R5"], S, _N_ARM, _N_ARM_SPLIT.replace("return r if _func(r, *args) >= 0 else _search(r, args)", "return _search(r, args)"), "split form without the early exit"),
 ]
+
+
+# ---------------------------------------------------------------------------------------------------------------------------------
+# third hardening pass: what a helper establishes about the values it returns goes with those values to every call site (the bracket search
+# in a helper that returns the bracket and signals "no bracket needed" by None / a flag; the sign test in a helper that returns a bool; the
+# residual from a factory; the bracket found by the caller and handed to the solver inside a comprehension or an element loop; the element-wise
+# application in a helper that takes the function; the Newton terms / convergence test / whole loop in helpers)
+_FUNC_N = '''        def _func(n, p, s, pr):
+            return p - (1 - betainc(s + 1, n - s, pr))
+
+'''
+_BR_NONE = _FUNC_N + '''        def _bracket(c, r, p):
+            a = r
+            if _func(a, 1 - c, r - 1, 1 - p) >= 0:
+                return a, None
+            loops = 0
+            b = 2 * a
+            while _func(b, 1 - c, r - 1, 1 - p) < 0 and loops < 30:
+                a = b
+                loops += 1
+                b = 2 * a
+            return a, b
+
+        def _run_brentq(c, r, p):
+            a, b = _bracket(c, r, p)
+            if b is None:
+                return a
+            return brentq(_func, a, b, args=(1 - c, r - 1, 1 - p))
+'''
+_BR_FLAG = _FUNC_N + '''        def _bracket(c, r, p):
+            lo = r
+            if _func(lo, 1 - c, r - 1, 1 - p) >= 0:
+                return True, lo, lo
+            hi = 2 * lo
+            for _ in range(30):
+                if not _func(hi, 1 - c, r - 1, 1 - p) < 0:
+                    break
+                lo, hi = hi, 2 * hi
+            return False, lo, hi
+
+        def _run_brentq(c, r, p):
+            met, lo, hi = _bracket(c, r, p)
+            if met:
+                return lo
+            return brentq(_func, lo, hi, args=(1 - c, r - 1, 1 - p))
+'''
+_BR_WHOLE_NONE = _FUNC_N + '''        def _bracket(c, r, p):
+            args = (1 - c, r - 1, 1 - p)
+            if _func(r, *args) >= 0:
+                return None
+            a, b = r, 2 * r
+            loops = 0
+            while _func(b, *args) < 0 and loops < 30:
+                a, b = b, 2 * b
+                loops += 1
+            return a, b
+
+        def _run_brentq(c, r, p):
+            br = _bracket(c, r, p)
+            if br is None:
+                return r
+            a, b = br
+            return brentq(_func, a, b, args=(1 - c, r - 1, 1 - p))
+'''
+_BR_LOWER_NONE = _FUNC_N + '''        def _bracket(c, r, p):
+            a = r
+            if _func(a, 1 - c, r - 1, 1 - p) >= 0:
+                return None, a
+            loops = 0
+            b = 2 * a
+            while _func(b, 1 - c, r - 1, 1 - p) < 0 and loops < 30:
+                a = b
+                loops += 1
+                b = 2 * a
+            return a, b
+
+        def _run_brentq(c, r, p):
+            lo, hi = _bracket(c, r, p)
+            return hi if lo is None else brentq(_func, lo, hi, args=(1 - c, r - 1, 1 - p))
+'''
+_BR_BOOL = _FUNC_N + '''        def _meets(m, c, r, p):
+            return _func(m, 1 - c, r - 1, 1 - p) >= 0
+
+        def _bracket(c, r, p):
+            if _meets(r, c, r, p):
+                return r, None
+            a, b, loops = r, 2 * r, 0
+            while not _meets(b, c, r, p) and loops < 30:
+                a, b, loops = b, 2 * b, loops + 1
+            return a, b
+
+        def _run_brentq(c, r, p):
+            a, b = _bracket(c, r, p)
+            if b is None:
+                return a
+            return brentq(_func, a, b, args=(1 - c, r - 1, 1 - p))
+'''
+_BR_FACTORY = '''        def _resid_for(c, r, p):
+            q, s, pr = 1 - c, r - 1, 1 - p
+            return lambda m: q - (1 - betainc(s + 1, m - s, pr))
+
+        def _bracket(f, a):
+            if f(a) >= 0:
+                return a, None
+            b, loops = 2 * a, 0
+            while f(b) < 0 and loops < 30:
+                a, b, loops = b, 2 * b, loops + 1
+            return a, b
+
+        def _run_brentq(c, r, p):
+            f = _resid_for(c, r, p)
+            a, b = _bracket(f, r)
+            return a if b is None else brentq(f, a, b)
+'''
+_N_FILL = "\n        b = np.broadcast(c, r, p)\n        n = np.empty(b.shape)\n        n.flat = [_run_brentq(c, r, p) for (c, r, p) in b]\n"
+_N_WHOLE = _N_ARM + _N_FILL
+_EACH_HELPER = _BR_NONE + '''
+        def _each(f, *ops):
+            bc = np.broadcast(*ops)
+            out = np.empty(bc.shape)
+            out.flat = [f(*t) for t in bc]
+            return out
+
+        n = _each(_run_brentq, c, r, p)
+'''
+_BR_PASSED = _BR_NONE.replace('''        def _run_brentq(c, r, p):
+            a, b = _bracket(c, r, p)
+            if b is None:
+                return a
+            return brentq(_func, a, b, args=(1 - c, r - 1, 1 - p))
+''', '''        def _solve(a, b, c, r, p):
+            return a if b is None else brentq(_func, a, b, args=(1 - c, r - 1, 1 - p))
+''')
+_BR_PASSED_COMP = _BR_PASSED + '''
+        b = np.broadcast(c, r, p)
+        n = np.empty(b.shape)
+        n.flat = [_solve(*_bracket(c, r, p), c, r, p) for (c, r, p) in b]
+'''
+_BR_PASSED_LOOP = _BR_PASSED + '''
+        b = np.broadcast(c, r, p)
+        n = np.empty(b.shape)
+        for i, (ci, ri, pi) in enumerate(b):
+            lo, hi = _bracket(ci, ri, pi)
+            n.flat[i] = _solve(lo, hi, ci, ri, pi)
+'''
+_NO_LOWER_TEST = "            if _func(a, 1 - c, r - 1, 1 - p) >= 0:\n                return a, None\n"
+
+_GETR_BODY = '''    sn = 1 / np.sqrt(n)
+    spi = 1 / np.sqrt(2 * np.pi)
+
+    # initial guess at r = r_inf * (1+1/(2*n)
+    r = norm.ppf(prob + (1 - prob) / 2) * (1 + 1 / (2 * n))
+    rold = r + 10
+    loops = 0
+    MAXLOOPS = 100
+''' + _NEWTON + '''    if loops == MAXLOOPS:  # pragma: no cover
+        warnings.warn(
+            "maximum number of loops exceeded. Solution will likely be inaccurate.",
+            RuntimeWarning,
+        )
+    return r
+'''
+_GETR_TERMS = '''    def terms(r, sn):
+        lhi, llo = sn + r, sn - r
+        return norm.cdf(lhi) - norm.cdf(llo) - prob, (np.exp(-(lhi**2) / 2) + np.exp(-(llo**2) / 2)) / np.sqrt(2 * np.pi)
+
+    def moving(r, rold):
+        return np.any(abs(r - rold) > tol)
+
+    sn = 1 / np.sqrt(n)
+    r = norm.ppf(prob + (1 - prob) / 2) * (1 + 1 / (2 * n))
+    rold = r + 10
+    loops = 0
+    MAXLOOPS = 100
+    while moving(r, rold) and loops < MAXLOOPS:
+        rold = r
+        num, den = terms(rold, sn)
+        r = rold - num / den
+        loops += 1
+    if loops == MAXLOOPS:  # pragma: no cover
+        warnings.warn(
+            "maximum number of loops exceeded. Solution will likely be inaccurate.",
+            RuntimeWarning,
+        )
+    return r
+'''
+_GETR_HANDED_ON = '''    sn = 1 / np.sqrt(n)
+    spi = 1 / np.sqrt(2 * np.pi)
+    r = norm.ppf(prob + (1 - prob) / 2) * (1 + 1 / (2 * n))
+    return _getr_iterate(r, sn, spi, prob, tol)
+
+
+def _getr_iterate(r, sn, spi, prob, tol, maxloops=100):
+    rold = r + 10
+    loops = 0
+''' + _NEWTON.replace("MAXLOOPS", "maxloops") + '''    if loops == maxloops:  # pragma: no cover
+        warnings.warn(
+            "maximum number of loops exceeded. Solution will likely be inaccurate.",
+            RuntimeWarning,
+        )
+    return r
+'''
+
+RECIPES += [
+    # ---- behaviour-preserving
+    ("C20", "neutral", [], S, _N_ARM, _BR_NONE, "bracket search in a helper that returns (a, None) when no bracket is needed, else (a, b); statements reordered"),
+    ("C20", "neutral", [], S, _N_ARM, _BR_FLAG, "bracket helper returns a flag with the bracket; for-range search"),
+    ("C20", "neutral", [], S, _N_ARM, _BR_WHOLE_NONE, "bracket helper returns None or the bracket, unpacked later"),
+    ("C20", "neutral", [], S, _N_ARM, _BR_LOWER_NONE, "bracket helper signals through the lower end; conditional expression around brentq"),
+    ("C20", "neutral", [], S, _N_ARM, _BR_BOOL, "sign test in a helper that returns a bool; simultaneous assignment with the counter"),
+    ("C20", "neutral", [], S, _N_ARM, _BR_FACTORY, "residual made by a factory; bracket helper is handed the function"),
+    ("C20", "neutral", [], S, _N_WHOLE, _EACH_HELPER, "element-wise application in a helper that is handed the function and the operands"),
+    ("C20", "neutral", [], S, _N_WHOLE, _BR_PASSED_COMP, "bracket found in the comprehension and handed (starred) to the solver"),
+    ("C20", "neutral", [], S, _N_WHOLE, _BR_PASSED_LOOP, "bracket found in an element loop and handed to the solver"),
+    ("C20", "neutral", [], S, _GETR_BODY, _GETR_TERMS, "Newton terms (as a pair) and convergence test in local helpers"),
+    ("C20", "neutral", [], S, _GETR_BODY, _GETR_HANDED_ON, "Newton loop in a module-level helper; the cap as a defaulted parameter"),
+    # ---- broken variants in these spellings
+    ("C20", "break", ["C20-R5"], S, _N_ARM, _BR_NONE.replace(_NO_LOWER_TEST, ""), "returned-bracket form without the test at the lower end (F16 again)"),
+    ("C20", "break", ["C20-R5"], S, _N_ARM, _BR_NONE.replace("< 0 and loops < 30", "< 0 or loops < 30"), "returned-bracket form whose loop may stop on the counter alone"),
+    ("C20", "break", ["C20-R4", "C20-R5"], S, _N_ARM, _BR_NONE.replace(">= 0:\n                return a, None", "<= 0:\n                return a, None"), "returned-bracket form with the early exit on the wrong sign"),
+    ("C20", "break", ["C20-R4"], S, _N_ARM, _BR_NONE.replace("                return a\n", "                return a + 1\n"), "returned-bracket form: early exit returns another point than the one tested"),
+    ("C20", "break", ["C20-R5"], S, _N_ARM, _BR_NONE.replace("            if b is None:\n", "            if b is not None:\n"), "returned-bracket form: None test inverted (brentq is handed None)"),
+    ("C20", "break", ["C20-R5"], S, _N_ARM, _BR_FLAG.replace("                if not _func(hi, 1 - c, r - 1, 1 - p) < 0:\n                    break\n", ""), "flag form: the upper end is never tested"),
+    ("C20", "break", ["C20-R5"], S, _N_ARM, _BR_FLAG.replace("            if met:\n", "            if not met:\n"), "flag form: flag inverted (brentq gets the point that already meets the confidence twice)"),
+    ("C20", "break", ["C20-R5"], S, _N_ARM, _BR_WHOLE_NONE.replace("            if _func(r, *args) >= 0:\n                return None\n", ""), "None-or-bracket form without the test at the lower end"),
+    ("C20", "break", ["C20-R5"], S, _N_ARM, _BR_BOOL.replace("while not _meets(b, c, r, p) and", "while _meets(b, c, r, p) and"), "bool-helper form: search loop runs on the wrong outcome"),
+    ("C20", "break", ["C20-R5"], S, _N_ARM, _BR_FACTORY.replace("            if f(a) >= 0:\n                return a, None\n", ""), "factory form without the test at the lower end"),
+    ("C20", "break", ["C20-R4"], S, _N_WHOLE, _EACH_HELPER.replace("out.flat = [f(*t) for t in bc]", "out.flat = [f(*t) + 1 for t in bc]"), "element helper adds an offset"),
+    ("C20", "break", ["C20-R5"], S, _N_WHOLE, _BR_PASSED_COMP.replace(_NO_LOWER_TEST, ""), "handed-over bracket (comprehension) without the test at the lower end"),
+    ("C20", "break", ["C20-R5"], S, _N_WHOLE, _BR_PASSED_COMP.replace("_solve(*_bracket(c, r, p), c, r, p)", "_solve(*_bracket(p, r, c), c, r, p)"), "bracket searched for other parameters than the root"),
+    ("C20", "break", ["C20-R5"], S, _N_WHOLE, _BR_PASSED_LOOP.replace("_bracket(ci, ri, pi)", "_bracket(ci, ri + 1, pi)"), "element loop: bracket searched for another rank"),
+    ("C20", "break", ["C20-R2"], S, _GETR_BODY, _GETR_TERMS.replace("np.any(abs", "np.all(abs"), "convergence helper stops when one element has converged"),
+    ("C20", "break", ["C20-R2"], S, _GETR_BODY, _GETR_TERMS.replace("norm.cdf(lhi) - norm.cdf(llo) - prob,", "norm.cdf(lhi) + norm.cdf(llo) - prob,"), "terms helper: residual with the wrong sign on the lower limit"),
+    ("C20", "break", ["C20-R2"], S, _GETR_BODY, _GETR_HANDED_ON.replace("_getr_iterate(r, sn, spi, prob, tol)", "_getr_iterate(r, sn, spi, tol, prob)"), "loop helper called with tol and prob swapped"),
+    ("C20", "break", ["C20-R2"], S, _GETR_BODY, _GETR_HANDED_ON.replace("    return _getr_iterate(", "    return 1.001 * _getr_iterate("), "result of the loop helper scaled before it is returned"),
+]
